@@ -2,7 +2,11 @@
 
 Obligations: coq/Properties/C11.v (a navigation of any length changes the visible part of no
 allocated element, for all heaps satisfying the invariant: children and both encodings unchanged,
-however often repeated; observers do not touch the store; computed write-materialisation instances).
+however often repeated; observers do not touch the store; C11_write_materialises: from any store with
+Inv and Tidy, x.n1...nk.value = text that ends normally lists every element of the chain under its
+predecessor, keeps Inv, leaves the rest alone and puts the value in the leaf - with the non-vacuity
+instance, the refutation without Tidy and the `.value = None` variant; C11_assign_materialises for the
+by-name form x.n1...nk = text whose last name is a child name of the element reached).
 Correspondence: harness/heapcorr.py (the histories, read probes included, replayed in the model with
 the full state dump - traversal indexes too - compared after every step).
 Oracle: (1) around every read probe (chains of 1-4 links by name / long name / positional path,
@@ -97,7 +101,8 @@ def main(argv=None):
     run = Run('C11', argv)
     if run.replay:
         return replay(run)
-    ok = run.build(['Properties/C11.vo'], gen=('params', 'tables'), obligation_files=['Properties/C11.v'] + ['Proofs/HeapRead.v'])
+    ok = run.build(['Properties/C11.vo'], gen=('params', 'tables'), obligation_files=['Properties/C11.v', 'Proofs/HeapRead.v', 'Proofs/HeapWrite.v', 'Proofs/HeapChain.v',
+                                     'Proofs/HeapLeaf.v', 'Proofs/HeapMaterialise.v', 'Proofs/HeapAssign.v'])
     if ok:
         run.print_assumptions('Properties.C11', [n for n, _ in theorems_of('Properties/C11.v')])
     rng = run.rng
